@@ -69,6 +69,10 @@ def sample_config(rng, idx):
         cfg.update(n=min(cfg["n"], 2), num_iters=300, max_time=float("inf"), num_particles=min(cfg["num_particles"], 2))
     if idx % 40 == 23:
         cfg.update(n=min(cfg["n"], 3), num_particles=300, num_iters=min(cfg["num_iters"], 2), heavy=False)
+    if idx % 40 == 3:
+        # grids at and beyond the switch to the FFT convolution
+        cfg.update(grid_size=[1000, 1001, 1200][(idx // 40) % 3], n=min(cfg["n"], 4), num_particles=min(cfg["num_particles"], 5),
+                   num_iters=min(cfg["num_iters"], 4), heavy=False)
     cfg["many_clones"] = idx % 40 == 31
     if cfg["many_clones"]:
         # a longer chain over shallow data with a large fixed concentration and subtree updates only: many small clones,
